@@ -994,6 +994,24 @@ impl Debugger {
         read_memory_by_pid(self.debugee.tracee_ctl().proc_pid(), addr, read_n).map_err(Ptrace)
     }
 
+    /// Read N bytes from a debugee process, with the original bytes of the program
+    /// in place of the trap instructions of enabled breakpoints.
+    ///
+    /// # Arguments
+    ///
+    /// * `addr`: address in debugee address space where reads
+    /// * `read_n`: read byte count
+    pub fn read_memory_unpatched(&self, addr: usize, read_n: usize) -> Result<Vec<u8>, Error> {
+        let mut bytes = self.read_memory(addr, read_n)?;
+        for brkpt in self.breakpoints.active_breakpoints() {
+            let brkpt_addr = usize::from(brkpt.addr);
+            if brkpt_addr >= addr && brkpt_addr - addr < bytes.len() {
+                bytes[brkpt_addr - addr] = brkpt.saved_data.get();
+            }
+        }
+        Ok(bytes)
+    }
+
     /// Write sizeof(uintptr_t) bytes in debugee address space.
     /// Note that little endian byte order will be used when writing.
     ///
